@@ -7,6 +7,8 @@ import Drv.C18
 import Drv.C20
 import Drv.C13
 import Drv.C10
+import Drv.C15
+import Drv.C16
 /-! `drv <model>`: executable models behind a one-line-in, one-line-out protocol. -/
 def main (args : List String) : IO UInt32 := do
   match args with
@@ -20,4 +22,6 @@ def main (args : List String) : IO UInt32 := do
   | ["c13"] => Drv.pureLoop Drv.C13.step; return 0
   | ["c10"] => Drv.loop Drv.C10.step {}; return 0
   | ["c11"] => Drv.loop Drv.C10.step {}; return 0
+  | ["c15"] => Drv.pureLoop Drv.C15.step; return 0
+  | ["c16"] => Drv.pureLoop Drv.C16.step; return 0
   | _ => IO.eprintln "usage: drv <model>"; return 2
